@@ -25,6 +25,8 @@ use std::sync::atomic::{AtomicBool, Ordering};
 
 /// Worlds whose nodes (and the attacker) live at IPv6 addresses and listen on IPv6 only.
 static V6_WORLD: AtomicBool = AtomicBool::new(false);
+/// IPv6 worlds only: every host is an IPv4 host seen through a socket that is not v6-only (`::ffff:a.b.c.d`)
+static MAPPED_WORLD: AtomicBool = AtomicBool::new(false);
 use std::sync::Arc;
 use std::time::Duration;
 use tokio::sync::{mpsc, oneshot};
@@ -265,8 +267,10 @@ fn independent_aad(bytes: &[u8], local_id: &NodeId) -> Option<Vec<u8>> {
 
 fn node_addr(idx: u64) -> SocketAddr {
     let v6 = V6_WORLD.load(Ordering::Relaxed);
+    let mapped = MAPPED_WORLD.load(Ordering::Relaxed);
     let host = |h: u64| -> IpAddr {
-        if v6 { Ipv6Addr::new(0xfd00, 0, 0, 0, 0, 0, 0, h as u16).into() } else { Ipv4Addr::new(10, 0, 0, h as u8).into() }
+        if v6 && mapped { Ipv4Addr::new(10, 0, 0, h as u8).to_ipv6_mapped().into() }
+        else if v6 { Ipv6Addr::new(0xfd00, 0, 0, 0, 0, 0, 0, h as u16).into() } else { Ipv4Addr::new(10, 0, 0, h as u8).into() }
     };
     if (21..=29).contains(&idx) {
         // another port on the host of node idx-20
@@ -1145,7 +1149,10 @@ impl Runner for HandlerRunner {
                 let modes: Vec<u8> = t.get(6).filter(|m| m.bytes().all(|b| b.is_ascii_digit())).map(|m| m.bytes().map(|b| b.wrapping_sub(b'0')).collect()).unwrap_or_default();
                 self.reset();
                 V6_WORLD.store(v6, Ordering::Relaxed);
+                let mapped = v6 && t.iter().skip(6).any(|x| *x == "m6");
+                MAPPED_WORLD.store(mapped, Ordering::Relaxed);
                 if v6 { stats.bump("h.world.v6"); }
+                if mapped { stats.bump("h.world.v6-mapped-hosts"); }
                 let n: u64 = n.parse().unwrap_or(2);
                 self.retries = retries.parse().unwrap_or(1);
                 self.timeout_ms = timeout_ms.parse().unwrap_or(400);
@@ -2008,7 +2015,7 @@ pub fn gen_case(rng: &mut Rng, tier: &str, profile: &str, stats: &mut Stats) -> 
         ops.push(format!("hworld {} {} {} 1000 86400000 {}", n, retries, timeout, "4".repeat(n as usize)));
     } else if profile == "C12" || rng.chance(1, 4) {
         let modes: String = (0..n).map(|_| match rng.below(7) { 0 => '1', 1 => '2', 2 => '3', 3 => '4', _ => '0' }).collect();
-        ops.push(format!("hworld {} {} {} 1000 86400000 {}{}", n, retries, timeout, modes, if rng.chance(1, 4) { " v6" } else { "" }));
+        ops.push(format!("hworld {} {} {} 1000 86400000 {}{}", n, retries, timeout, modes, match rng.below(8) { 0 => " v6", 1 => " v6 m6", _ => "" }));
     } else {
         ops.push(format!("hworld {} {} {} 1000 86400000{}", n, retries, timeout, if rng.chance(1, 6) { " v6" } else { "" }));
     }
